@@ -53,6 +53,13 @@ module Coq__1 = struct
 end
 include Coq__1
 
+(** val mul : nat -> nat -> nat **)
+
+let rec mul n m =
+  match n with
+  | O -> O
+  | S p -> add m (mul p m)
+
 (** val sub : nat -> nat -> nat **)
 
 let rec sub n m =
@@ -64,6 +71,15 @@ let rec sub n m =
 
 module Nat =
  struct
+  (** val sub : nat -> nat -> nat **)
+
+  let rec sub n m =
+    match n with
+    | O -> n
+    | S k -> (match m with
+              | O -> n
+              | S l -> sub k l)
+
   (** val eqb : nat -> nat -> bool **)
 
   let rec eqb n m =
@@ -88,6 +104,22 @@ module Nat =
 
   let ltb n m =
     leb (S n) m
+
+  (** val divmod : nat -> nat -> nat -> nat -> nat * nat **)
+
+  let rec divmod x y q0 u =
+    match x with
+    | O -> (q0, u)
+    | S x' ->
+      (match u with
+       | O -> divmod x' y (S q0) y
+       | S u' -> divmod x' y q0 u')
+
+  (** val modulo : nat -> nat -> nat **)
+
+  let modulo x = function
+  | O -> x
+  | S y' -> sub y' (snd (divmod x y' O y'))
 
   (** val div2 : nat -> nat **)
 
@@ -675,6 +707,11 @@ type 'f numOps = { n0 : 'f; n1 : 'f; nadd : ('f -> 'f -> 'f);
 let nleb o0 a b =
   negb (o0.nltb b a)
 
+(** val ngtb : 'a1 numOps -> 'a1 -> 'a1 -> bool **)
+
+let ngtb o0 a b =
+  o0.nltb b a
+
 (** val nmax : 'a1 numOps -> 'a1 -> 'a1 -> 'a1 **)
 
 let nmax o0 a b =
@@ -704,6 +741,11 @@ let n4 o0 =
 
 let nofnat o0 n =
   o0.nofZ (Z.of_nat n)
+
+(** val nsum : 'a1 numOps -> 'a1 list -> 'a1 **)
+
+let nsum o0 l =
+  fold_left o0.nadd l o0.n0
 
 (** val qltb : q -> q -> bool **)
 
@@ -3125,6 +3167,12 @@ let asQs = function
 | VL l -> all_some (map asQ l)
 | _ -> None
 
+(** val asQss : val0 -> q list list option **)
+
+let asQss = function
+| VL l -> all_some (map asQs l)
+| _ -> None
+
 (** val asNs : val0 -> nat list option **)
 
 let asNs = function
@@ -3551,6 +3599,156 @@ let poisson_cumsums o0 t0 draws =
 
 let poisson_spikes o0 t0 t1 draws =
   filter (fun x -> o0.nltb x t1) (poisson_cumsums o0 t0 draws)
+
+(** val mrow : 'a1 list list -> nat -> 'a1 list **)
+
+let mrow d i =
+  nth i d []
+
+(** val mget : 'a1 numOps -> 'a1 list list -> nat -> nat -> 'a1 **)
+
+let mget o0 d i j =
+  nth j (mrow d i) o0.n0
+
+(** val triu_row : 'a1 numOps -> 'a1 list list -> nat -> nat -> 'a1 **)
+
+let triu_row o0 d n i =
+  nsum o0 (map (mget o0 d i) (seq i (sub n i)))
+
+(** val triu_sum : 'a1 numOps -> 'a1 list list -> 'a1 **)
+
+let triu_sum o0 d =
+  let n = length d in nsum o0 (map (triu_row o0 d n) (seq O n))
+
+(** val permutate_matrix :
+    'a1 numOps -> 'a1 list list -> nat list -> 'a1 list list **)
+
+let permutate_matrix o0 d p =
+  map (fun n -> map (fun m -> mget o0 d n m) p) p
+
+(** val swap_adj : nat list -> nat -> nat list **)
+
+let swap_adj p i =
+  app (firstn i p)
+    (match skipn i p with
+     | [] -> []
+     | a :: l -> (match l with
+                  | [] -> a :: []
+                  | b :: r -> b :: (a :: r)))
+
+(** val row_max : 'a1 numOps -> 'a1 list -> 'a1 -> 'a1 **)
+
+let row_max o0 r a =
+  fold_left (nmax o0) r a
+
+(** val mat_max : 'a1 numOps -> 'a1 list list -> 'a1 **)
+
+let mat_max o0 = function
+| [] -> o0.n0
+| l :: rows ->
+  (match l with
+   | [] -> o0.n0
+   | x :: r -> fold_left (fun a row -> row_max o0 row a) rows (row_max o0 r x))
+
+type 'f sa = { sa_p : nat list; sa_A : 'f; sa_k : nat }
+
+(** val sa_step :
+    'a1 numOps -> (nat -> nat) -> ('a1 -> 'a1 -> nat -> bool) -> 'a1 list
+    list -> nat -> 'a1 -> 'a1 sa -> 'a1 sa * bool **)
+
+let sa_step o0 rnd metro d n t s =
+  let ind1 = Nat.modulo (rnd s.sa_k) (sub n (S O)) in
+  let a = nth ind1 s.sa_p O in
+  let b = nth (S ind1) s.sa_p O in
+  let delta = o0.nmul (o0.nofZ (Zneg (XO XH))) (mget o0 d a b) in
+  if ngtb o0 delta o0.n0
+  then ({ sa_p = (swap_adj s.sa_p ind1); sa_A = (o0.nadd s.sa_A delta);
+         sa_k = (S s.sa_k) }, true)
+  else if metro delta t (rnd (S s.sa_k))
+       then ({ sa_p = (swap_adj s.sa_p ind1); sa_A = (o0.nadd s.sa_A delta);
+              sa_k = (S (S s.sa_k)) }, true)
+       else ({ sa_p = s.sa_p; sa_A = s.sa_A; sa_k = (S (S s.sa_k)) }, false)
+
+(** val sa_equil :
+    'a1 numOps -> (nat -> nat) -> ('a1 -> 'a1 -> nat -> bool) -> 'a1 list
+    list -> nat -> 'a1 -> nat -> nat -> nat -> 'a1 sa -> ('a1 sa * nat) * nat **)
+
+let rec sa_equil o0 rnd metro d n t fuel succ0 its s =
+  match fuel with
+  | O -> ((s, succ0), its)
+  | S fuel' ->
+    if Nat.ltb succ0 (mul (S (S (S (S (S (S (S (S (S (S O)))))))))) n)
+    then let (s', ok) = sa_step o0 rnd metro d n t s in
+         sa_equil o0 rnd metro d n t fuel' (if ok then S succ0 else succ0) (S
+           its) s'
+    else ((s, succ0), its)
+
+(** val sa_cool :
+    'a1 numOps -> (nat -> nat) -> ('a1 -> 'a1 -> nat -> bool) -> 'a1 list
+    list -> nat -> 'a1 -> 'a1 -> nat -> 'a1 -> nat -> 'a1 sa -> ('a1
+    sa * nat) option **)
+
+let rec sa_cool o0 rnd metro d n t_end alpha fuel t total s =
+  if ngtb o0 t t_end
+  then (match fuel with
+        | O -> None
+        | S fuel' ->
+          let (p, its) =
+            sa_equil o0 rnd metro d n t
+              (mul (S (S (S (S (S (S (S (S (S (S (S (S (S (S (S (S (S (S (S
+                (S (S (S (S (S (S (S (S (S (S (S (S (S (S (S (S (S (S (S (S
+                (S (S (S (S (S (S (S (S (S (S (S (S (S (S (S (S (S (S (S (S
+                (S (S (S (S (S (S (S (S (S (S (S (S (S (S (S (S (S (S (S (S
+                (S (S (S (S (S (S (S (S (S (S (S (S (S (S (S (S (S (S (S (S
+                (S
+                O))))))))))))))))))))))))))))))))))))))))))))))))))))))))))))))))))))))))))))))))))))))))))))))))))))
+                n) O O s
+          in
+          let (s', succ0) = p in
+          if Nat.eqb succ0 O
+          then Some (s', (add total its))
+          else sa_cool o0 rnd metro d n t_end alpha fuel' (o0.nmul t alpha)
+                 (add total its) s')
+  else Some (s, total)
+
+(** val sim_ann :
+    'a1 numOps -> (nat -> nat) -> ('a1 -> 'a1 -> nat -> bool) -> 'a1 list
+    list -> 'a1 -> 'a1 -> 'a1 -> nat -> ((nat list * 'a1) * nat) option **)
+
+let sim_ann o0 rnd metro d t_start t_end alpha fuel =
+  let n = length d in
+  (match sa_cool o0 rnd metro d n t_end alpha fuel t_start O { sa_p =
+           (seq O n); sa_A = (triu_sum o0 d); sa_k = O } with
+   | Some p -> let (s, total) = p in Some ((s.sa_p, s.sa_A), total)
+   | None -> None)
+
+(** val sorting_from_matrix :
+    'a1 numOps -> (nat -> nat) -> ('a1 -> 'a1 -> nat -> bool) -> 'a1 list
+    list -> nat -> ((nat list * 'a1) * nat) option **)
+
+let sorting_from_matrix o0 rnd metro d fuel =
+  let t_start = o0.nmul (n2 o0) (mat_max o0 d) in
+  let t_end =
+    o0.nmul
+      (o0.ndiv o0.n1
+        (o0.nofZ (Zpos (XO (XO (XO (XO (XO (XI (XO (XI (XO (XI (XI (XO (XO
+          (XO (XO (XI XH))))))))))))))))))) t_start
+  in
+  sim_ann o0 rnd metro d t_start t_end
+    (o0.ndiv (o0.nofZ (Zpos (XI (XO (XO XH)))))
+      (o0.nofZ (Zpos (XO (XI (XO XH)))))) fuel
+
+(** val metro_script : 'a1 -> 'a1 -> nat -> bool **)
+
+let metro_script _ _ u =
+  Nat.eqb u O
+
+(** val cyc : nat list -> nat -> nat **)
+
+let cyc pat k =
+  match pat with
+  | [] -> O
+  | _ :: _ -> nth (Nat.modulo k (length pat)) pat O
 
 (** val o : q numOps **)
 
@@ -6925,8 +7123,127 @@ let dispatch id args =
                                                                     bad)
                                                                     | _ :: _ ->
                                                                     bad)))
+                                                                    | S n97 ->
+                                                                    (match n97 with
+                                                                    | O ->
+                                                                    (match args with
+                                                                    | [] ->
+                                                                    bad
+                                                                    | m :: l ->
+                                                                    (match l with
+                                                                    | [] ->
+                                                                    bad
+                                                                    | pat :: l0 ->
+                                                                    (match l0 with
+                                                                    | [] ->
+                                                                    (match 
+                                                                    asQss m with
+                                                                    | Some d ->
+                                                                    (match 
+                                                                    asNs pat with
+                                                                    | Some pt ->
+                                                                    (match 
+                                                                    sorting_from_matrix
+                                                                    o
+                                                                    (cyc pt)
+                                                                    metro_script
+                                                                    d (S (S
+                                                                    (S (S (S
+                                                                    (S (S (S
+                                                                    (S (S (S
+                                                                    (S (S (S
+                                                                    (S (S (S
+                                                                    (S (S (S
+                                                                    (S (S (S
+                                                                    (S (S (S
+                                                                    (S (S (S
+                                                                    (S (S (S
+                                                                    (S (S (S
+                                                                    (S (S (S
+                                                                    (S (S (S
+                                                                    (S (S (S
+                                                                    (S (S (S
+                                                                    (S (S (S
+                                                                    (S (S (S
+                                                                    (S (S (S
+                                                                    (S (S (S
+                                                                    (S (S (S
+                                                                    (S (S (S
+                                                                    (S (S (S
+                                                                    (S (S (S
+                                                                    (S (S (S
+                                                                    (S (S (S
+                                                                    (S (S (S
+                                                                    (S (S (S
+                                                                    (S (S (S
+                                                                    (S (S (S
+                                                                    (S (S (S
+                                                                    (S (S (S
+                                                                    (S (S (S
+                                                                    (S (S (S
+                                                                    (S (S (S
+                                                                    (S (S (S
+                                                                    (S (S (S
+                                                                    (S (S (S
+                                                                    (S (S (S
+                                                                    (S (S (S
+                                                                    (S
+                                                                    O)))))))))))))))))))))))))))))))))))))))))))))))))))))))))))))))))))))))))))))))))))))))))))))))))))))))))))))))))))))))) with
+                                                                    | Some p0 ->
+                                                                    let (
+                                                                    p1, it) =
+                                                                    p0
+                                                                    in
+                                                                    let (
+                                                                    p, a) = p1
+                                                                    in
+                                                                    VL ((VL
+                                                                    (map
+                                                                    (fun x ->
+                                                                    VN x) p)) :: ((VQ
+                                                                    a) :: ((VN
+                                                                    it) :: [])))
+                                                                    | None ->
+                                                                    bad)
+                                                                    | None ->
+                                                                    bad)
+                                                                    | None ->
+                                                                    bad)
+                                                                    | _ :: _ ->
+                                                                    bad)))
+                                                                    | S n98 ->
+                                                                    (match n98 with
+                                                                    | O ->
+                                                                    (match args with
+                                                                    | [] ->
+                                                                    bad
+                                                                    | m :: l ->
+                                                                    (match l with
+                                                                    | [] ->
+                                                                    bad
+                                                                    | p :: l0 ->
+                                                                    (match l0 with
+                                                                    | [] ->
+                                                                    (match 
+                                                                    asQss m with
+                                                                    | Some d ->
+                                                                    (match 
+                                                                    asNs p with
+                                                                    | Some pp ->
+                                                                    VL
+                                                                    ((encMatrix
+                                                                    (permutate_matrix
+                                                                    o d pp)) :: ((VQ
+                                                                    (triu_sum
+                                                                    o d)) :: []))
+                                                                    | None ->
+                                                                    bad)
+                                                                    | None ->
+                                                                    bad)
+                                                                    | _ :: _ ->
+                                                                    bad)))
                                                                     | S _ ->
-                                                                    bad))))))))))))))))))))))))))))))))))))))))))))))))))))))))))))))))))))))))))))))))))))))))))))))
+                                                                    bad))))))))))))))))))))))))))))))))))))))))))))))))))))))))))))))))))))))))))))))))))))))))))))))))
 
 (** val eff : 'a1 -> 'a1 -> 'a1 list -> 'a1 list **)
 
